@@ -939,8 +939,14 @@ def _finder_args(holder: Func, call: ast.Call) -> List[ast.AST]:
 def _finder_sites(p, router: Class) -> List[_FinderSite]:
     direct: List[_FinderSite] = []
     for m in router.methods.values():
+        aliases = set()    # locals bound (at least once) to the slot: `find = self._find`
+        for n in walk_self(m.node):
+            if isinstance(n, (ast.Assign, ast.AnnAssign)) and n.value is not None and _self_attr(n.value) == FINDER_SLOT:
+                for t in (n.targets if isinstance(n, ast.Assign) else [n.target]):
+                    if isinstance(t, ast.Name):
+                        aliases.add(t.id)
         for c in walk_self(m.node):
-            if isinstance(c, ast.Call) and _self_attr(c.func) == FINDER_SLOT:
+            if isinstance(c, ast.Call) and (_self_attr(c.func) == FINDER_SLOT or (isinstance(c.func, ast.Name) and c.func.id in aliases)):
                 direct.append(_FinderSite(m, m, c, _finder_args(m, c), None))
     sites = list(direct)
     # one level of same-class helper
@@ -955,6 +961,8 @@ def _finder_sites(p, router: Class) -> List[_FinderSite]:
                 if d.holder is not t:
                     continue
                 prms = [x for x in t.params() if x not in ('self', 'cls')]
+                if any(isinstance(a, ast.Name) and a.id not in prms for a in d.args):
+                    continue   # the helper computes an argument itself (find() splits the path): its own site is the one to check
                 rebound = {n.id for n in walk_self(t.node) if isinstance(n, ast.Name) and isinstance(n.ctx, (ast.Store, ast.Del))}
                 args = []
                 for a in d.args:
@@ -2433,6 +2441,8 @@ def r10_finder_invalidated(run):
                 t = p.callee(find, c)
                 if isinstance(t, Func) and t.cls is find.cls and t is not find:
                     slots |= called_slots(t)
+    if not slots and any(st.method is find for st in _finder_sites(p, find.cls)):
+        slots = {FINDER_SLOT}   # called through a local alias (`f = self._find; f(...)`)
     if len(slots) != 1:
         raise AnchorError('finder slot of CompiledRouter.find not identified: %s' % sorted(slots))
     slot = slots.pop()
@@ -2564,7 +2574,7 @@ def check(run):
     run.assume('R1-R11 are about sequential histories; a lookup IN PROGRESS while add_route recompiles keeps its answer because the recompile '
                'publishes fresh side tables instead of resetting them in place: R12, shared with C19 R6')
     run.rule('R1', r1_atomic_rejection, 'a rejected template leaves the route tree unchanged (mutate -> undo -> reject typestate)', floor=12)
-    run.rule('R2', r2_sort_key, 'sibling sort key orders literal < multi-field < single-field', floor=3)
+    run.rule('R2', r2_sort_key, 'sibling sort key orders literal < every complex kind ({x}.json, {x}-{y}, 3+ fields) < plain single field', floor=7)
     run.rule('R3', r3_delayed_params, 'parameter assignment is delayed to the matched route and never leaks between branches', floor=14)
     run.rule('R4', r4_index_guards, 'every path[i] in the generated finder is under a length guard that covers i', floor=10)
     run.rule('R5', r5_side_tables, 'side tables: index/append pairing and position agreement with the generated finder', floor=25)
@@ -2578,4 +2588,4 @@ def check(run):
     run.rule('R12', _c19.r6_tables_rebound, 'a recompile publishes fresh side tables; lookups in flight keep a consistent finder/table pair (shared with C19 R6)', floor=3)
     run.rule('R11', r11_converter_bounds, 'converter bounds are tested against None, not by truthiness', floor=1)
     run.rule('R10', r10_finder_invalidated, 'every accepted add_route invalidates or rebuilds the compiled finder', floor=3)
-    run.rule('R9', r9_rendered_text, 'template-derived text reaches a line of the generated source only validated, converted (!r), or as int / generated name', floor=20)
+    run.rule('R9', r9_rendered_text, 'template-derived text reaches a line of the generated source only validated, converted (!r), or as int / generated name', floor=28)
